@@ -116,7 +116,7 @@ func init() {
 
 	// UnmarshalText: B[0] = text, I[0] = receiver slot.
 	reg("UnmarshalText", func(x *Ctx, op *Op, r *Result) {
-		in, chk := guard(op.bytes(0))
+		in, chk := x.input(op.bytes(0))
 		d := x.recv(op.int(0))
 		x.call(r, func() { err := d.UnmarshalText(in); r.err(err); r.dec(*d) })
 		if v := chk(); v != "" {
@@ -468,6 +468,7 @@ type simScanState struct {
 	pos    int
 	last   int
 	errAt  int // offset at which the next read fails once (-1: never)
+	errK   int // which error
 	fired  bool
 	tokens int
 }
@@ -475,7 +476,7 @@ type simScanState struct {
 func (s *simScanState) ReadRune() (rune, int, error) {
 	if s.pos == s.errAt && !s.fired {
 		s.fired = true
-		return 0, 0, ErrInjected
+		return 0, 0, InjectedErr(s.errK)
 	}
 	if s.pos >= len(s.data) {
 		s.last = 0
@@ -539,7 +540,7 @@ func init() {
 	// I[2] = receiver slot. Calls Decimal.Scan directly with a
 	// simulator-owned fmt.ScanState.
 	reg("ScanState", func(x *Ctx, op *Op, r *Result) {
-		st := &simScanState{data: op.bytes(0), errAt: int(op.int(1))}
+		st := &simScanState{data: op.bytes(0), errAt: int(op.int(1)), errK: int(op.int(3))}
 		d := x.recv(op.int(2))
 		x.call(r, func() {
 			err := d.Scan(st, rune(op.int(0)))
